@@ -1,5 +1,5 @@
 (* C08 — the file-system wallet only signs with the key that owns the requested address.
-   Statements only; proofs live in Wallet/Proofs.v and Wallet/Proofs2.v.
+   Statements only; proofs live in Wallet/Proofs.v, Proofs2.v, Proofs3.v and Proofs4.v.
 
    Everything is quantified over: the key / transaction / signature types, the external behaviour [E]
    (regexp, templates, metadata parsers, JSON strings, TrimSpace, path.Join, the keystore reader, the
@@ -10,7 +10,7 @@
 From Coq Require Import String.
 From Coq Require Import List NArith Lia Bool Arith.
 From Coq Require Import Init.Byte.
-From FFS Require Import Base.Res Base.Bytes Wallet.Model Wallet.Spec Wallet.Proofs Wallet.Proofs2 Wallet.Proofs3.
+From FFS Require Import Base.Res Base.Bytes Wallet.Model Wallet.Spec Wallet.Proofs Wallet.Proofs2 Wallet.Proofs3 Wallet.Proofs4.
 Import ListNotations.
 
 Arguments after {key tx stx doc tsig} E c s h.
@@ -250,6 +250,51 @@ Proof. exact wallet_never_panics. Qed.
 Print Assumptions C08_never_panics.
 
 (* ------------------------------------------------------------------------------------------------
+   (round 3) Only listed accounts can sign.  In every reachable state the signer cache holds nothing but
+   keys of listed addresses, each under the string of its own address; hence a request naming an address
+   that GetAccounts does not list — e.g. one whose text differs in a single digit from an address whose
+   key is cached — fails with "not available" and changes nothing.  And a request that does not return
+   Ok never changes the wallet (no partial caching), in any state. *)
+Theorem C08_cached_keys_listed :
+  forall (key tx stx doc tsig : Type) (E : ext key tx stx doc tsig) (c : config)
+         (fs : fsys) (h : list (op tx doc)) (ks : bytes) (w : key),
+    assoc_get ks (st_cache (after E c (init_state fs) h)) = Some w ->
+    ks = addr_string (addr_of E w) /\ In (addr_of E w) (GetAccounts (after E c (init_state fs) h)).
+Proof. exact cached_keys_listed. Qed.
+Print Assumptions C08_cached_keys_listed.
+
+Theorem C08_unlisted_address_refused :
+  forall (key tx stx doc tsig : Type) (E : ext key tx stx doc tsig) (c : config)
+         (fs : fsys) (h : list (op tx doc)) (a : bytes),
+    let s := after E c (init_state fs) h in
+    ~ In a (GetAccounts s) -> GetWalletFile E c s a = (s, Err ENotAvailable).
+Proof. exact unlisted_refused. Qed.
+Print Assumptions C08_unlisted_address_refused.
+
+Theorem C08_unlisted_address_refused_tx :
+  forall (key tx stx doc tsig : Type) (E : ext key tx stx doc tsig) (c : config)
+         (fs : fsys) (h : list (op tx doc)) (raw a : bytes) (t : tx),
+    let s := after E c (init_state fs) h in
+    parse_from E raw = Some a -> ~ In a (GetAccounts s) -> Sign E c s raw t = (s, Err ENotAvailable).
+Proof. exact unlisted_refused_sign. Qed.
+Print Assumptions C08_unlisted_address_refused_tx.
+
+Theorem C08_unlisted_address_refused_typed_data :
+  forall (key tx stx doc tsig : Type) (E : ext key tx stx doc tsig) (c : config)
+         (fs : fsys) (h : list (op tx doc)) (a : bytes) (d : doc),
+    let s := after E c (init_state fs) h in
+    ~ In a (GetAccounts s) -> SignTypedDataV4 E c s a d = (s, Err ENotAvailable).
+Proof. exact unlisted_refused_typed_data. Qed.
+Print Assumptions C08_unlisted_address_refused_typed_data.
+
+Theorem C08_failed_request_leaves_state :
+  forall (key tx stx doc tsig : Type) (E : ext key tx stx doc tsig) (c : config)
+         (s s' : state key) (a : bytes) (r : res key),
+    GetWalletFile E c s a = (s', r) -> (forall k, r <> Ok k) -> s' = s.
+Proof. exact GetWalletFile_failed_unchanged. Qed.
+Print Assumptions C08_failed_request_leaves_state.
+
+(* ------------------------------------------------------------------------------------------------
    Non-vacuity: a concrete wallet.  Keys are identified with their address; a key file's content is
    the address of the key it holds; every password file must read "pw".  The directory k holds
      1111…11.key   the key of A = 0x11…11            (correct)
@@ -337,4 +382,23 @@ Example C08_nonvacuous_foreign_key :
 Proof.
   apply (C08_foreign_key_refused _ _ _ _ _ xE xc _ xB (hexB ++ lit ".key") xA); vm_compute; try reflexivity.
   discriminate.
+Qed.
+
+(* (round 3) A's key is cached; the address that differs from A in the last hexadecimal digit is not
+   listed, so the hypothesis of C08_unlisted_address_refused holds for it and the request is refused;
+   the cache entry is the one C08_cached_keys_listed describes *)
+Definition xA' : bytes := repeat x11 19 ++ [x10].
+Example C08_nonvacuous_unlisted :
+  let s := after xE xc (init_state xfs) [ORefresh; OGetWalletFile _ _ xA] in
+  assoc_get (addr_string xA) (st_cache s) = Some xA /\
+  GetAccounts s = [xA; xB] /\
+  GetWalletFile xE xc s xA' = (s, Err ENotAvailable) /\
+  Sign xE xc s (s_0x ++ repeat x31 39 ++ [x30]) tt = (s, Err ENotAvailable).
+Proof.
+  split; [vm_compute; reflexivity|]. split; [vm_compute; reflexivity|]. split.
+  - apply (C08_unlisted_address_refused _ _ _ _ _ xE xc xfs [ORefresh; OGetWalletFile _ _ xA] xA').
+    vm_compute. intros [H|[H|[]]]; discriminate.
+  - apply (C08_unlisted_address_refused_tx _ _ _ _ _ xE xc xfs [ORefresh; OGetWalletFile _ _ xA] _ xA' tt).
+    + vm_compute; reflexivity.
+    + vm_compute. intros [H|[H|[]]]; discriminate.
 Qed.
